@@ -253,6 +253,8 @@ def check_long_history(case):
 # ---------------------------------------------------------------- no mutation of host values
 
 MUT_FORMULAS = [
+    # host lists holding error objects, as the value of the whole formula or passed through selecting functions
+    'v_le', 'IF(TRUE,v_le,0)', 'IFERROR(v_le,0)', 'INDEX(v_le,0,0)', 'v_ne', 'INDEX(v_ne,2)', 'CHOOSE(1,v_le,1)', '{v_le,1}', 'ISERROR(INDEX(v_le,2))', 'v_le&""', 'COUNT(v_le)',
     # several host lists handed to one call of a function that flattens its arguments
     'COUNT(v_l,v_m)', 'AND(v_l,v_m)', 'OR(v_m,v_l,v_k)', 'XOR(v_n,v_l)', 'COUNTA(v_l,v_m,v_t)', 'COUNT(v_n,v_n)', 'AVERAGEIF(v_n,">0")', 'COUNTBLANK(v_l,v_m)', 'CONCATENATE(v_l,v_m)', 'TEXTJOIN("",TRUE,v_l,v_m)', 'COUNT(B2:C3,v_n)',
     'MAX(v_l,v_m)', 'MEDIAN(v_l,v_m)', 'AVEDEV(v_n,v_l)', 'SUM(v_n,v_n)', 'AND(B2:C3,B2:C3)',
@@ -281,8 +283,23 @@ def mut_case(draw):
             't': draw(st.lists(st.sampled_from(['ab', 'cd', 'a', '']), min_size=2, max_size=4))}
 
 
+def snapshot_lists(v):
+    # a copy of the list structure; whatever is not a list (numbers, text, the library's shared error objects) is kept as the very object,
+    # so that "unchanged" means the same items at the same places
+    if isinstance(v, list):
+        return [snapshot_lists(x) for x in v]
+    return v
+
+
+def same_items(a, b):
+    if isinstance(a, list) or isinstance(b, list):
+        return isinstance(a, list) and isinstance(b, list) and len(a) == len(b) and all(same_items(x, y) for x, y in zip(a, b))
+    return a is b or (type(a) == type(b) and a == b)
+
+
 def check_mutation(case):
-    host = {'v_l': list(case['l']), 'v_m': list(case['m']), 'v_n': [list(r) for r in case['n']], 'v_k': list(case['k']), 'v_t': list(case['t']), 'v_one': [case['l'][0]], 'v_row': [list(case['m'])]}
+    host = {'v_l': list(case['l']), 'v_m': list(case['m']), 'v_n': [list(r) for r in case['n']], 'v_k': list(case['k']), 'v_t': list(case['t']), 'v_one': [case['l'][0]], 'v_row': [list(case['m'])],
+            'v_le': [case['l'][0], errors().NOT_AVAILABLE, case['l'][1], errors().DIV_ZERO], 'v_ne': [[1, errors().NUM], [errors().REF, 4]]}
     rng = [[1, 2], [3, 4]]
     cellv = [7, [8, 9]]
     ret = [10, 20, 30]
@@ -294,7 +311,7 @@ def check_mutation(case):
     def hf(*args):
         for a in args:
             if isinstance(a, list):
-                seen_args.append((a, copy.deepcopy(a), id_tree(a)))
+                seen_args.append((a, snapshot_lists(a), id_tree(a)))
         return len(args)
     P.set_function('HF', hf)
     P.set_function('HG', lambda x: ret)
@@ -302,16 +319,16 @@ def check_mutation(case):
     P.on('callCellValue', lambda c, setter: setter(cellv))
     tracked = dict(host)
     tracked.update({'range value': rng, 'cell value': cellv, 'function return value': ret})
-    before = dict((k, (copy.deepcopy(v), id_tree(v))) for k, v in tracked.items())
+    before = dict((k, (snapshot_lists(v), id_tree(v))) for k, v in tracked.items())
     for f in case['formulas']:
         P.parse(f)
         for k, v in tracked.items():
-            if v != before[k][0]:
+            if not same_items(v, before[k][0]):
                 raise Violation('evaluating %r changed the host\'s %s from %r to %r' % (f, k, before[k][0], v), enc(v), enc(before[k][0]))
             if id_tree(v) != before[k][1]:
                 raise Violation('evaluating %r replaced a list inside the host\'s %s' % (f, k), None, None)
         for a, snap, ids in seen_args:
-            if a != snap or id_tree(a) != ids:
+            if not same_items(a, snap) or id_tree(a) != ids:
                 raise Violation('evaluating %r changed a list after it was handed to a custom function: %r -> %r' % (f, snap, a), enc(a), enc(snap))
 
 
